@@ -202,6 +202,80 @@ const callFormsFile = `{namespace pr}
 {template .samewords2}
 {let $count: 2 /}{msg desc="counted by count"}{plural $count}{case 1}One apple{default}Several apples{/plural}{/msg}
 {/template}
+/**
+ * @param? m
+ * @param? c
+ */
+{template .sf1}
+{foreach $x in []}a{ifempty}e{/foreach}
+{let $note: 'draft' /}{let $a: 'leak-a' /}{let $s}leak-s{/let}{let $extra: 'leak-x' /}{$note}{$a}{$s}{$extra}{$c ? 1 : 0}
+{call .show data="all" /}{if isNonnull($m)}{call .show data="$m" /}{/if}
+{/template}
+/**
+ * @param? m
+ * @param? c
+ */
+{template .sf2}
+{foreach $x in []}a{ifempty}e{/foreach}{foreach $x in []}a{ifempty}e{/foreach}
+{let $note: 'draft' /}{let $a: 'leak-a' /}{let $s}leak-s{/let}{let $extra: 'leak-x' /}{$note}{$a}{$s}{$extra}{$c ? 1 : 0}
+{call .show data="all" /}{if isNonnull($m)}{call .show data="$m" /}{/if}
+{/template}
+/**
+ * @param? m
+ * @param? c
+ */
+{template .sf3}
+{foreach $x in []}a{ifempty}e{/foreach}{foreach $x in []}a{ifempty}e{/foreach}{foreach $x in []}a{ifempty}e{/foreach}
+{let $note: 'draft' /}{let $a: 'leak-a' /}{let $s}leak-s{/let}{let $extra: 'leak-x' /}{$note}{$a}{$s}{$extra}{$c ? 1 : 0}
+{call .show data="all" /}{if isNonnull($m)}{call .show data="$m" /}{/if}
+{/template}
+/**
+ * @param? m
+ * @param? c
+ */
+{template .sf4}
+{foreach $x in []}a{ifempty}e{/foreach}{foreach $x in []}a{ifempty}e{/foreach}{foreach $x in []}a{ifempty}e{/foreach}{foreach $x in []}a{ifempty}e{/foreach}
+{let $note: 'draft' /}{let $a: 'leak-a' /}{let $s}leak-s{/let}{let $extra: 'leak-x' /}{$note}{$a}{$s}{$extra}{$c ? 1 : 0}
+{call .show data="all" /}{if isNonnull($m)}{call .show data="$m" /}{/if}
+{/template}
+/**
+ * @param? m
+ * @param? c
+ */
+{template .sfi1}
+{foreach $z in [1, 2]}{foreach $x in []}a{ifempty}e{/foreach}
+{let $note: 'draft' /}{let $a: 'leak-a' /}{let $s}leak-s{/let}{let $extra: 'leak-x' /}{$note}{$a}{$s}{$extra}{$c ? 1 : 0}{/foreach}
+{call .show data="all" /}{if isNonnull($m)}{call .show data="$m" /}{/if}
+{/template}
+/**
+ * @param? m
+ * @param? c
+ */
+{template .sfi2}
+{foreach $z in [1, 2]}{foreach $x in []}a{ifempty}e{/foreach}{foreach $x in []}a{ifempty}e{/foreach}
+{let $note: 'draft' /}{let $a: 'leak-a' /}{let $s}leak-s{/let}{let $extra: 'leak-x' /}{$note}{$a}{$s}{$extra}{$c ? 1 : 0}{/foreach}
+{call .show data="all" /}{if isNonnull($m)}{call .show data="$m" /}{/if}
+{/template}
+/**
+ * @param? m
+ * @param? c
+ */
+{template .sfi3}
+{foreach $z in [1, 2]}{foreach $x in []}a{ifempty}e{/foreach}{foreach $x in []}a{ifempty}e{/foreach}{foreach $x in []}a{ifempty}e{/foreach}
+{let $note: 'draft' /}{let $a: 'leak-a' /}{let $s}leak-s{/let}{let $extra: 'leak-x' /}{$note}{$a}{$s}{$extra}{$c ? 1 : 0}{/foreach}
+{call .show data="all" /}{if isNonnull($m)}{call .show data="$m" /}{/if}
+{/template}
+/**
+ * @param? m
+ * @param? c
+ */
+{template .scopeforms}
+{for $i in range(0)}x{ifempty}e{/for}{let $note: 'draft' /}{for $i in range(0)}x{/for}{foreach $y in []}y{/foreach}{let $a: 'leak-a' /}{for $i in range(0)}x{ifempty}e{/for}
+{if $c}{let $extra: 'leak-extra' /}{$extra}{/if}{if not $c}{let $extra: 'leak-extra0' /}{$extra}{/if}{switch 3}{case 1}one{/switch}{switch 3}{case 1}one{default}{let $count: 9 /}{$count}{/switch}
+{let $extra: 'leak-extra2' /}{$note}{$a}{$extra}
+{foreach $z in [1, 2]}{if $z == 1}{foreach $x in []}a{ifempty}e{/foreach}{/if}{let $name: $z /}{$name}{/foreach}
+{call .show data="all" /}{call .structshow data="all" /}{if isNonnull($m)}{call .show data="$m" /}{/if}
+{/template}
 /** @param? m */
 {template .funcforms}
 {randomInt(1)}{randomInt(1) + length(keys(augmentMap(['a': 1], ['b': 2])))}|{round(2.567, 2)}|{round(2.5)}|{floor(2.5)}|{ceiling(2.5)}|{min(1, 2.5)}|{max(1, 2)}|{strContains('abc', 'b')}|{length(range(3))}|{hasData()}|{isNonnull($m)}
@@ -449,7 +523,7 @@ func c08History(r *fw.Rand, tier, config string, nops int) (files []srcFile, pro
 	if config == "custom" {
 		names = append(names, "cust.t")
 	}
-	names = append(names, "pr.callforms", "pr.callforms", "pr.dirforms", "pr.funcforms", "pr.pluralforms", "pr.pluralforms", "pr.samewords1", "pr.samewords2", "pr.samewords2", "pr.samewords1", "twa.t", "twb.t", "twb.t", "twa.t")
+	names = append(names, "pr.scopeforms", "pr.sf1", "pr.sf2", "pr.sf3", "pr.sf4", "pr.sfi1", "pr.sfi2", "pr.sfi3", "pr.callforms", "pr.callforms", "pr.dirforms", "pr.funcforms", "pr.pluralforms", "pr.pluralforms", "pr.samewords1", "pr.samewords2", "pr.samewords2", "pr.samewords1", "twa.t", "twb.t", "twb.t", "twa.t")
 	for k := 0; k < nops; k++ {
 		if config == "custom" && r.P(1, 10) {
 			ops = append(ops, c08Op{kind: "reconf"})
